@@ -182,6 +182,19 @@ def _crosscheck(ck, ctx, job, out, fp):
         if res is not None and res.get('status') == 'contract-error':
             out['cross']['mismatch'].append({'path': fp, 'why': 'contract error in numeric mode: ' + res.get('detail', '')[-400:]})
         return
+    if res.get('failed'):
+        # the real code fails a clause of the contract at this in-domain point: a replayed counterexample,
+        # whatever the symbolic engine concluded (e.g. a floating-point effect outside assumption A1)
+        known = {o.clause.split('[')[0] for o in ck.obligs if o.status == 'refuted'}
+        for cl, why in res['failed'].items():
+            if cl.split('[')[0] not in known:
+                ck.obligs.append(Oblig(cl, 0, 'refuted', 'native-witness', 0.0,
+                                       'fails on the real code at a witness of this path (found by the CPython cross-check): ' + str(why)[:300], vals))
+                out['obligs'].append({'clause': cl, 'idx': 0, 'path': fp, 'status': 'refuted', 'backend': 'native-witness', 'secs': 0.0,
+                                      'detail': 'fails on the real code at a witness of this path (found by the CPython cross-check): ' + str(why)[:300],
+                                      'values': vals, 'pc': [repr(b)[:160] for b, _z, _l in ctx.pc][:12], 'labels': [l for _, _, l in ctx.pc][:12]})
+        out['cross']['validated'] += 1
+        return
     ncalls = res.get('calls', [])
     robust = kind == 'sampled' and margin > 1e-7
     for i, (r, nr) in enumerate(zip(ck.calls, ncalls)):
